@@ -47,7 +47,7 @@ def run_job(work, job, tag):
 
 
 def env_check(work, prop, tier, seed, t0, jobs, invariants, model_runs, rule, assumptions, crash_is_verdict=True,
-              race=False, split_marker=None):
+              race=False, split_marker=None, level="model_checking"):
     maxpar = 6 if race else NCPU
     with cf.ThreadPoolExecutor(max_workers=maxpar) as ex:
         futs = [ex.submit(run_job, work, j, "%d" % i) for i, j in enumerate(jobs)]
@@ -129,7 +129,8 @@ def env_check(work, prop, tier, seed, t0, jobs, invariants, model_runs, rule, as
            "samples": samples or [{"note": "none"}], "evaluations": max(ops, 1), "distinct_nontrivial": max(digests, 2 if ops else 0),
            "rule": rule, "trace_lines_validated_by_TLC": lines, "trace_invariants": invariants, "model_runs": model_runs,
            "jobs": [j.label for j in jobs], "exhaustive": False}
-    level = "model_checking" if ms > 0 and mt > 0 else "exploration"
+    if level == "model_checking" and not (ms > 0 and mt > 0):
+        level = "exploration"
     write_evidence(prop, tier, seed, level, cov, time.time() - t0, vio_count, assumptions + ASSUME_BASE)
     if vio_count:
         return 1
@@ -226,7 +227,7 @@ def check_C13(work, prop, tier, seed, t0):
     jobs = []
     kinds = ["alpha/bytes", "collation/bytes/und"] if q else ["alpha/bytes", "collation/bytes/und", "collation/bytes/sv", "collation/bytes/en-num"]
     for k in kinds:
-        for u in (["random", "long"] if k.startswith("alpha") else ["text"]):
+        for u in (["random", "long", "vlong"] if k.startswith("alpha") else ["text"]):
             jobs.append(Job("arena:%s:%s" % (k, u), "plain", ["arena", "-kind", k, "-u", u, "-seed", str(seed), "-n", str(4 if q else 20),
                                                                  "-len", str(60 if q else 150)]))
     return env_check(work, prop, tier, seed, t0, jobs, ["Inv_C13", "Inv_C01", "Inv_C02", "Inv_C03", "Inv_C04", "Inv_C05", "Inv_C11"], model_runs,
@@ -248,7 +249,8 @@ def check_C16(work, prop, tier, seed, t0):
                      "race-detector build; G goroutines with heavy grow/shrink churn on private trees of mixed kinds (shared node pools busy), then G "
                      "readers querying each quiescent shared tree at once; GOMAXPROCS in {2,4,16}, Gosched injection; every goroutine's trace is "
                      "validated against the sequential specification; a race report is a verdict",
-                     ["the Go race detector reports no false positives; schedules are sampled by repeated real runs, not enumerated"], race=True)
+                     ["the Go race detector reports no false positives; schedules are sampled by repeated real runs, not enumerated"], race=True,
+                     level="exploration")
 
 
 def check_C17(work, prop, tier, seed, t0):
@@ -264,14 +266,16 @@ def check_C17(work, prop, tier, seed, t0):
                      "one dedicated process per kind; on a tree of bounded size: %d queries, %d overwrites, %d delete/re-insert operations, then "
                      "every key deleted; live heap after two forced collections at 5 checkpoints per phase; judged by the specification's bounds "
                      "(growth within a phase <= 512 KiB, emptied tree <= 512 KiB above the heap before the first insert)" % (ops, ops, ops),
-                     ["heap measurements include the harness's own constant allocations; thresholds are ~50x the observed noise and well below a 16 B/op leak at these counts"])
+                     ["heap measurements include the harness's own constant allocations; thresholds are ~50x the observed noise and well below a 16 B/op leak at these counts"],
+                     level="exploration")
 
 
 def check_C18(work, prop, tier, seed, t0):
     q = tier == "quick"
     model_runs = [env_model(work)]
     vts = ["int", "string", "ptr", "bytes", "zero", "big", "rich"]
-    kinds = [("alpha/string", "random"), ("uint32", "random"), ("float64", "random"), ("collation/string/und", "text"), ("compound/u8+str", "tuple")]
+    kinds = [("alpha/string", "random"), ("uint32", "random"), ("float64", "random"), ("collation/string/und", "text"), ("compound/u8+str", "tuple"),
+             ("alpha/bytes", "vlong")]
     if not q:
         kinds += [("alpha/bytes", "long"), ("int64", "random"), ("int8", "fan1"), ("float32", "random"), ("collation/bytes/sv", "text"),
                   ("collation/runes/und", "text"), ("uint8", "fan1")]
@@ -286,7 +290,7 @@ def check_C18(work, prop, tier, seed, t0):
                      "value-type matrix (int, string, *struct, []byte, zero-size, 200-byte struct, struct with pointers) x tree kinds; GC percent 1, "
                      "forced collections between operations, garbage pressure, checkptr instrumentation; every stored key and value deep-compared "
                      "through the id it was made from; a runtime fault (bad pointer, checkptr) is a verdict",
-                     ["collector timing is sampled by forced and pressure-driven collections, not enumerated"])
+                     ["collector timing is sampled by forced and pressure-driven collections, not enumerated"], level="exploration")
 
 
 for pid, fn in (("C12", check_C12), ("C13", check_C13), ("C16", check_C16), ("C17", check_C17), ("C18", check_C18)):
